@@ -50,6 +50,8 @@ class VCfg:
             v2 = vec_expr("s", int(p[2:]), e, alloc_expr("exact2", e), pst)
         elif p.startswith("s8_"):
             v2 = vec_expr("s", int(p[3:]), e, pa, "uint8_t")
+        elif p.startswith("si8_"):
+            v2 = vec_expr("s", int(p[4:]), e, pa, "int8_t")
         elif p.startswith("s"):
             v2 = vec_expr("s", int(p[1:]), e, pa, pst)
         elif p.startswith("f"):
@@ -103,6 +105,8 @@ QUICK = [
     VCfg("f", 16, "TC12", "none", "uint8_t", "v8"),
     # element whose move operations are not noexcept (the noexcept(false) variants of every helper), partner with a narrower size_type
     VCfg("v", 0, "NTRTM", "basic", "uint32_t", "s8_4"),
+    # same width, other signedness of the size types of the two swap2 operands
+    VCfg("v", 0, "TR", "basic", "uint8_t", "si8_4"),
     # raw arithmetic elements (std::is_arithmetic / is_trivial special cases; +0.0 / -0.0 / NaN values)
     VCfg("s", 4, "double", "amc", "uint32_t", "v"),
     VCfg("v", 0, "int", "realloc", "uint16_t", "s3"),
@@ -329,6 +333,8 @@ ALIAS_QUICK = [
     alias_cfg("s", 4, "TC12", "realloc", "uint16_t"),
     alias_cfg("f", 8, "NTR", "none", "uint8_t"),
     alias_cfg("f", 8, "TR", "none", "uint8_t"),
+    alias_cfg("s", 3, "NTR", "basic", "uint8_t"),
+    alias_cfg("v", 0, "TR", "realloc", "uint16_t"),
 ]
 ALIAS_THOROUGH = [
     alias_cfg("v", 0, "NTR", "std", "int16_t"),
@@ -359,6 +365,10 @@ LIMITS_QUICK = [
     lim_cfg("s", 2, "TC4", "amc", "uint8_t"),
     lim_cfg("s", 32, "NTR", "exact", "int8_t"),
     lim_cfg("s", 2, "TR", "basic", "uint8_t"),
+    # default 32-bit size_type: size()+count overflowing the size_type (only the exceeding side is executable)
+    lim_cfg("v", 0, "TR", "basic", "uint32_t"),
+    lim_cfg("s", 4, "NTR", "exact", "uint32_t"),
+    lim_cfg("s", 3, "TC4", "amc", "int32_t"),
 ]
 LIMITS_THOROUGH = [
     lim_cfg("f", 4, "TR", "none", "uint8_t"),
